@@ -82,6 +82,8 @@ func floatBound(kind, class string) float64 {
 		return 0
 	case "small":
 		return 7.5
+	case "inexact":
+		return 0.1
 	case "big53":
 		return 9007199254740992 // 2^53 (exactly representable)
 	case "extreme":
